@@ -75,6 +75,8 @@ type WatchCall struct {
 }
 
 type Server struct {
+	// StaleDuplicates: lists also name an older version of every second object, before the current one
+	StaleDuplicates bool
 	// ShuffleLists: every List answers with its items in another order
 	ShuffleLists bool
 	inflight atomic.Int32
@@ -378,6 +380,26 @@ func (s *Server) list(ctx context.Context, _ metav1.ListOptions) (runtime.Object
 	s.mu.Unlock()
 	if earlyV >= 0 {
 		v, objs = earlyV, early
+	}
+	if s.StaleDuplicates {
+		// an older version of every second object is listed as well, BEFORE the
+		// current one: a list may name a key twice, its newest version counts
+		s.mu.Lock()
+		var withDups []*kobj.Obj
+		for i, o := range objs {
+			if i%2 == 0 {
+				for k := len(s.log) - 1; k >= 0; k-- {
+					e := s.log[k]
+					if e.Obj.NS == o.NS && e.Obj.NM == o.NM && e.Obj.ID != o.ID && e.Type != watch.Deleted && e.Version <= v {
+						withDups = append(withDups, e.Obj)
+						break
+					}
+				}
+			}
+			withDups = append(withDups, o)
+		}
+		s.mu.Unlock()
+		objs = withDups
 	}
 	if s.ShuffleLists {
 		// the items of a list come in no particular order
